@@ -28,7 +28,7 @@ def rd(ctx, N, M=16, B=4, K=1, qN=None, tiers=("quick", "thorough"), labels=None
     return r
 
 
-RD_CONTEXTS_Q = [(0, 3), (1, 2), (2, 2), (11, 2), (12, 2), (16, 2), (17, 2), (52, 2), (57, 2), (60, 2)]
+RD_CONTEXTS_Q = [(0, 3), (1, 2), (2, 2), (11, 2), (12, 2), (16, 2), (17, 2), (24, 2), (52, 2), (57, 2), (60, 2)]
 
 def rdp(harness, ctx, N, picks, labels, covers=(), M=16, tiers=("quick", "thorough"), extra=None):
     r = rd(ctx, N, M=M, labels=labels, covers=covers, harness=harness, tiers=tiers, extra=extra)
@@ -45,7 +45,8 @@ CHECKS = {
     },
     "C03": {
         "level": "model_checking",
-        "runs": [rd(c, n, labels=["C03:"], covers=["truncated"] if c != 60 else []) for c, n in RD_CONTEXTS_Q],
+        "runs": [rd(c, n, labels=["C03:"], covers=["truncated"] if c != 60 else []) for c, n in RD_CONTEXTS_Q] +
+                [rdp("VerifRdReset", 0, 2, {"olderr": oe, "wp": wp}, ["C13:"], ["ran"]) for (oe, wp) in [(0, 1), (1, 3)]],
         "assumptions": ["oracle: reference inflater strict + permissive; stdlib compress/flate executed symbolically for error kinds",
                         "every implicit Go panic (index, slice bounds, nil, negative shift, divide) and every access outside an allocation is a forked branch whose failing side is reported"],
     },
